@@ -73,6 +73,10 @@ CLAIMED = {
    "Structural necessary conditions of 'chunks cover the document once, in order': exhaustiveness of the element type switch over all implementations of model.Element (from the type checker), every Section container filled by section building is iterated by something reachable from Chunk (VTA reachability), the lossy-filter analysis of C09 on the section-building and chunking loops, exactly-one index increment dominating every return of each create*Chunk, TotalChunks = len(chunks), an abstract walk of the paragraph splitter proving that every direct emission happens with the pending buffer empty (flush or Len()>0 false edge since the last write), sibling agreement of the two TOC matchers, and the page-stamp rule of C10.",
    "Trusted: go/types, go/ssa, VTA; the emptiness abstraction of the pending buffer tracks writes and flushes syntactically in one function; exactly-once coverage as a multiset is not decided.",
    "type-switch exhaustiveness + written-never-read containers (call-graph reachability) + path enumeration + typestate of the pending buffer", "DESIGN.md §4 C12"),
+ "C02": ("other",
+   "Structural necessary conditions that remove classes of crashes, hangs and exhaustion (their absence is not proven): a lexer error ends the token stream or is checked at every call site; file-derived sizes are bounded by constants or by existing data before make(); file-derived slice bounds, /Index pairs and /W widths are guarded on both sides; every integer division in the predictor code has a divisor proven >= 1; every recursive SCC of the VTA call graph is either guarded (depth counter / visited or in-progress set, verified in the carrying function) or listed tree recursion, and a new cycle is a violation; reference-following loops carry a bound or visited test crossed on every trip; the XObject nesting counter is balanced on every path (path enumeration incl. deferred closures); and a finite dataflow over the format constants with callee summaries proves every format-specific reader is used only under its own format.",
+   "Trusted: go/ssa, VTA call graph; the frozen classification table of recursive cycles (one reason each); unproven bounds checks elsewhere, decompression bombs, regexp cost and timing are not decided.",
+   "guard dominance with phi-aware interval facts + call-graph SCC classification + finite-domain dataflow (format typestate) + path enumeration (counter balance)", "DESIGN.md §4 C02"),
 }
 
 NOT_BUILT = "rules for this property are not built yet in this revision of /verif (see DESIGN.md §4 for the plan)"
